@@ -54,6 +54,9 @@ func WithNoLoggingImpersonation(handler http.Handler, a authorizer.Authorizer, s
 			return
 		}
 		if len(impersonationRequests) == 0 {
+			// nothing this filter understands was requested: headers of the Impersonate-* family that are
+			// unknown to it (e.g. Impersonate-Uid) must still not reach the upstream as sent by the client
+			stripImpersonationHeaders(req.Header)
 			handler.ServeHTTP(w, req)
 			return
 		}
@@ -167,17 +170,21 @@ func WithNoLoggingImpersonation(handler http.Handler, a authorizer.Authorizer, s
 		ae := request.AuditEventFrom(ctx)
 		audit.LogImpersonatedUser(ae, newUser)
 
-		// clear all the impersonation headers from the request
-		req.Header.Del(authenticationv1.ImpersonateUserHeader)
-		req.Header.Del(authenticationv1.ImpersonateGroupHeader)
-		for headerName := range req.Header {
-			if strings.HasPrefix(headerName, authenticationv1.ImpersonateUserExtraHeaderPrefix) {
-				req.Header.Del(headerName)
-			}
-		}
+		// clear all the impersonation headers from the request, also those of the family this filter does not
+		// interpret: the upstream only sees the impersonation headers the gateway generates itself
+		stripImpersonationHeaders(req.Header)
 
 		handler.ServeHTTP(w, req)
 	})
+}
+
+// stripImpersonationHeaders removes every client-supplied header of the Impersonate-* family.
+func stripImpersonationHeaders(headers http.Header) {
+	for headerName := range headers {
+		if strings.HasPrefix(strings.ToLower(headerName), "impersonate-") {
+			headers.Del(headerName)
+		}
+	}
 }
 
 func unescapeExtraKey(encodedKey string) string {
